@@ -465,7 +465,9 @@ def execute(ctx, plan):    # noqa: C901  pylint: disable=too-many-statements,too
             return 0.0
         b, fade_ms, t = st
         if t + fade_ms / 1000.0 > loop.time() + 1e-9:
-            return ("hardware fade still running", b, fade_ms, t)
+            # the statement speaks about the brightness last commanded; a hardware fade that was commanded late
+            # (e.g. behind a slow earlier batch) and therefore ends late is not judged
+            ctx.probe("hw_fade_ends_late")
         return b
 
     def hw_settled(name, now):
